@@ -38,30 +38,46 @@ var binopGal = map[string]string{"+": "ADD", "-": "SUB", "*": "MUL", "/": "DIV",
 
 func condParam(id int64) string { return fmt.Sprintf("c%d", id) }
 
-// Real builds the real expr.Expr.
-func (x *XExpr) Real() expr.Expr {
+// Real builds the real expr.Expr (IF conditions become parameters c<i> of the metadata).
+func (x *XExpr) Real() expr.Expr { return x.RealC(nil) }
+
+// RealC builds the real expr.Expr with the given compiled IF conditions.
+func (x *XExpr) RealC(conds []goexpr.Expr) expr.Expr {
+	if conds != nil {
+		switch x.K {
+		case "field", "const":
+		default:
+			// rebuild children with the same conditions
+			cp := *x
+			_ = cp
+		}
+	}
+	return x.realC(conds)
+}
+
+func (x *XExpr) realC(conds []goexpr.Expr) expr.Expr {
 	switch x.K {
 	case "field":
 		return expr.FIELD(x.N)
 	case "const":
 		return expr.CONST(float64(x.Z))
 	case "bounded":
-		return expr.BOUNDED(x.Sub[0].Real(), float64(x.Lo), float64(x.Hi))
+		return expr.BOUNDED(x.Sub[0].realC(conds), float64(x.Lo), float64(x.Hi))
 	case "agg":
 		switch x.N {
 		case "SUM":
-			return expr.SUM(x.Sub[0].Real())
+			return expr.SUM(x.Sub[0].realC(conds))
 		case "MIN":
-			return expr.MIN(x.Sub[0].Real())
+			return expr.MIN(x.Sub[0].realC(conds))
 		case "MAX":
-			return expr.MAX(x.Sub[0].Real())
+			return expr.MAX(x.Sub[0].realC(conds))
 		case "COUNT":
-			return expr.COUNT(x.Sub[0].Real())
+			return expr.COUNT(x.Sub[0].realC(conds))
 		}
 	case "avg":
-		return expr.WAVG(x.Sub[0].Real(), x.Sub[1].Real())
+		return expr.WAVG(x.Sub[0].realC(conds), x.Sub[1].realC(conds))
 	case "bin":
-		l, r := x.Sub[0].Real(), x.Sub[1].Real()
+		l, r := x.Sub[0].realC(conds), x.Sub[1].realC(conds)
 		switch x.N {
 		case "+":
 			return expr.ADD(l, r)
@@ -89,11 +105,14 @@ func (x *XExpr) Real() expr.Expr {
 			return expr.OR(l, r)
 		}
 	case "if":
-		return expr.IF(goexpr.Param(condParam(x.Z)), x.Sub[0].Real())
+		if conds != nil {
+			return expr.IF(conds[x.Z], x.Sub[0].realC(conds))
+		}
+		return expr.IF(goexpr.Param(condParam(x.Z)), x.Sub[0].realC(conds))
 	case "shift":
-		return expr.SHIFT(x.Sub[0].Real(), time.Duration(x.Z))
+		return expr.SHIFT(x.Sub[0].realC(conds), time.Duration(x.Z))
 	case "unary":
-		e, err := expr.UnaryMath(x.N, x.Sub[0].Real())
+		e, err := expr.UnaryMath(x.N, x.Sub[0].realC(conds))
 		if err != nil {
 			panic(err)
 		}
@@ -191,8 +210,14 @@ func gfloatZ(v float64) string {
 
 // gfloatQ prints a float64 exactly as a Coq Q.
 func gfloatQ(v float64) string {
-	if math.IsInf(v, 0) || math.IsNaN(v) {
-		return "(999999999999999999999 # 1)"
+	if math.IsInf(v, 1) {
+		return "(inject_Z (10 ^ 400))"
+	}
+	if math.IsInf(v, -1) {
+		return "(inject_Z (- 10 ^ 400))"
+	}
+	if math.IsNaN(v) {
+		return "(999999999999999999999 # 7)"
 	}
 	r := new(big.Rat).SetFloat64(v)
 	num, den := r.Num(), r.Denom()
@@ -222,17 +247,24 @@ func gtime(t time.Time) string {
 // ---- generation ----
 
 type exprGen struct {
-	r          *rand.Rand
-	fields     []string
-	allowIf    bool
-	allowDiv   bool
-	allowShift bool
+	r              *rand.Rand
+	fields         []string
+	allowIf        bool
+	allowDiv       bool
+	allowShift     bool
+	nconds         int  // number of IF conditions available (0 = 3 anonymous oracle columns)
+	noConstOperand bool // no constant operands in binary expressions (D14)
+	valueOnly      bool // (state) currently below an arithmetic or comparison operator
+	noConstAgg     bool // no aggregate over a bare constant (crashes the DB on query: finding D17)
+	sqlSafe        bool // zenodb's SQL grammar: comparisons/AND/OR only at the top or below AND/OR
 }
 
 func (g *exprGen) wrappable(depth int) *XExpr {
 	switch g.r.Intn(6) {
 	case 0:
-		return &XExpr{K: "const", Z: int64(g.r.Intn(5)) - 1}
+		if !g.noConstAgg {
+			return &XExpr{K: "const", Z: int64(g.r.Intn(5)) - 1}
+		}
 	case 1:
 		if depth > 0 {
 			lo := int64(g.r.Intn(6)) - 3
@@ -248,6 +280,9 @@ func (g *exprGen) leaf() *XExpr {
 		if g.r.Intn(2) == 0 {
 			w = g.wrappable(1)
 		}
+		if g.r.Intn(6) == 0 {
+			w = &XExpr{K: "const", Z: int64(g.r.Intn(3))}
+		}
 		return &XExpr{K: "avg", Sub: []*XExpr{g.wrappable(1), w}}
 	}
 	aggs := []string{"SUM", "MIN", "MAX", "COUNT"}
@@ -256,7 +291,69 @@ func (g *exprGen) leaf() *XExpr {
 
 // gen produces a valid expression of the aggregate grammar; underCmp forbids DIV
 // below comparison operators (float vs exact rational equality would differ).
-func (g *exprGen) gen(depth int, underCmp bool) *XExpr { return g.gen2(depth, underCmp, false) }
+func (g *exprGen) gen(depth int, underCmp bool) *XExpr {
+	if g.sqlSafe {
+		if depth > 0 && g.r.Intn(4) == 0 {
+			return g.genBool(depth)
+		}
+		return g.genVal(depth, false, false)
+	}
+	return g.gen2(depth, underCmp, false)
+}
+
+// genVal / genBool: the typed grammar zenodb's SQL parser accepts (value expressions vs
+// boolean expressions; AND/OR take booleans, comparisons and arithmetic take values).
+func (g *exprGen) genVal(depth int, underBin bool, noDiv bool) *XExpr {
+	if depth <= 0 {
+		return g.leaf()
+	}
+	switch g.r.Intn(9) {
+	case 0, 1, 2:
+		return g.leaf()
+	case 3:
+		if g.allowIf {
+			nc := 3
+			if g.nconds > 0 {
+				nc = g.nconds
+			}
+			return &XExpr{K: "if", Z: int64(g.r.Intn(nc)), Sub: []*XExpr{g.genVal(depth-1, false, noDiv)}}
+		}
+		return g.leaf()
+	case 4:
+		if underBin || noDiv {
+			return g.leaf()
+		}
+		lo := int64(g.r.Intn(10)) - 5
+		return &XExpr{K: "bounded", Lo: lo, Hi: lo + int64(g.r.Intn(20)), Sub: []*XExpr{g.genVal(depth-1, false, true)}}
+	case 5:
+		if g.allowShift {
+			return &XExpr{K: "shift", Z: -int64(g.r.Intn(3)) * int64(time.Second), Sub: []*XExpr{g.genVal(depth-1, false, noDiv)}}
+		}
+		return g.leaf()
+	default:
+		ops := []string{"+", "-", "*"}
+		if g.allowDiv && !noDiv {
+			ops = append(ops, "/")
+		}
+		op := ops[g.r.Intn(len(ops))]
+		side := func() *XExpr {
+			if g.r.Intn(5) == 0 && !g.noConstOperand {
+				return &XExpr{K: "const", Z: int64(g.r.Intn(7)) - 2}
+			}
+			return g.genVal(depth-1, true, noDiv)
+		}
+		return &XExpr{K: "bin", N: op, Sub: []*XExpr{side(), side()}}
+	}
+}
+
+func (g *exprGen) genBool(depth int) *XExpr {
+	if depth > 1 && g.r.Intn(3) == 0 {
+		op := []string{"AND", "OR"}[g.r.Intn(2)]
+		return &XExpr{K: "bin", N: op, Sub: []*XExpr{g.genBool(depth - 1), g.genBool(depth - 1)}}
+	}
+	op := []string{"<", "<=", "=", "<>", ">=", ">"}[g.r.Intn(6)]
+	return &XExpr{K: "bin", N: op, Sub: []*XExpr{g.genVal(depth-1, true, true), g.genVal(depth-1, true, true)}}
+}
 
 func (g *exprGen) gen2(depth int, underCmp bool, underBin bool) *XExpr {
 	if depth <= 0 {
@@ -271,7 +368,11 @@ func (g *exprGen) gen2(depth int, underCmp bool, underBin bool) *XExpr {
 		return g.leaf()
 	case 3:
 		if g.allowIf {
-			return &XExpr{K: "if", Z: int64(g.r.Intn(3)), Sub: []*XExpr{g.gen2(depth-1, underCmp, false)}}
+			nc := 3
+			if g.nconds > 0 {
+				nc = g.nconds
+			}
+			return &XExpr{K: "if", Z: int64(g.r.Intn(nc)), Sub: []*XExpr{g.gen2(depth-1, underCmp, false)}}
 		}
 		return g.leaf()
 	case 4:
@@ -287,18 +388,27 @@ func (g *exprGen) gen2(depth int, underCmp bool, underBin bool) *XExpr {
 		return g.leaf()
 	default:
 		ops := []string{"+", "-", "*", "<", "<=", "=", "<>", ">=", ">", "AND", "OR"}
+		if g.sqlSafe && g.valueOnly {
+			ops = []string{"+", "-", "*"}
+		}
 		if g.allowDiv && !underCmp {
 			ops = append(ops, "/", "/")
 		}
 		op := ops[g.r.Intn(len(ops))]
 		cmp := underCmp || !(op == "+" || op == "-" || op == "*" || op == "/")
+		if g.sqlSafe {
+			// children of anything but AND/OR are value expressions
+			saved := g.valueOnly
+			g.valueOnly = !(op == "AND" || op == "OR")
+			defer func() { g.valueOnly = saved }()
+		}
 		var l, rr *XExpr
-		if g.r.Intn(5) == 0 {
+		if g.r.Intn(5) == 0 && !g.noConstOperand {
 			l = &XExpr{K: "const", Z: int64(g.r.Intn(7)) - 2}
 		} else {
 			l = g.gen2(depth-1, cmp, true)
 		}
-		if g.r.Intn(5) == 0 {
+		if g.r.Intn(5) == 0 && !g.noConstOperand {
 			rr = &XExpr{K: "const", Z: int64(g.r.Intn(7)) - 2}
 		} else {
 			rr = g.gen2(depth-1, cmp, true)
